@@ -229,8 +229,10 @@ OPTIONS = ["euler", "tauleap", "gillespie"]
 TR = None
 
 
-def dispatch_case(space, mode, option):
+def dispatch_case(space, mode, option, bc=("reflecting", "periodical", "reflecting")):
     cid = "dispatch/%s/%s/%s" % (space, mode, option)
+    if bc != ("reflecting", "periodical", "reflecting"):
+        cid += "/" + "".join(b[0] for b in bc)
     P = "C14/dispatch/%s" % space
 
     def run(api):
@@ -282,8 +284,8 @@ def dispatch_case(space, mode, option):
         c_state0 = state.arr
         if space == "grid":
             vals.update({"w": w, "h": h, "d": d, "mesh_vol": _pos(I, "vol"),
-                         "boundary_conditions_x": Str(I.strcode("reflecting")), "boundary_conditions_y": Str(I.strcode("periodical")),
-                         "boundary_conditions_z": Str(I.strcode("reflecting"))})
+                         "boundary_conditions_x": Str(I.strcode(bc[0])), "boundary_conditions_y": Str(I.strcode(bc[1])),
+                         "boundary_conditions_z": Str(I.strcode(bc[2]))})
         else:
             ne = K._int(I, "n_edges", 0)
             vals.update({"n_nodes": M, "n_edges": ne, "edge_i": Ptr("int", ne, I.fresh_arr("edge_i", "int"), "edge_i"),
@@ -381,7 +383,7 @@ def dispatch_case(space, mode, option):
         if space == "grid" and isinstance(init_args.get("boundary_conditions"), Vec):
             b = init_args["boundary_conditions"]
             c.oblige(P + "/forwarded/boundary_conditions (x, y, z order)",
-                     z3.And(b.n == 3, z3.Select(b.arr, 0) == 0, z3.Select(b.arr, 1) == 1, z3.Select(b.arr, 2) == 0))
+                     z3.And(b.n == 3, *[z3.Select(b.arr, _k) == (1 if bc[_k] == "periodical" else 0) for _k in range(3)]))
 
     return Case(cid, run, functions=["engineexport_initialize_" + space], conc=False, max_paths=4000)
 
@@ -447,6 +449,6 @@ if z3 is not None:
     CASES.append(mkvec_case())
     CASES.append(redistribution_case())
     for _sp in ("grid", "graph"):
-        for _m, _o in (("none", "gillespie"), ("auto", "euler"), ("auto", "tauleap"), ("redist", "euler"), ("Poisson", "gillespie"),
-                       ("floor-or-unknown", "euler")):
+        for _m, _o in (("none", "gillespie"), ("auto", "euler"), ("auto", "tauleap"), ("auto", "gillespie"), ("redist", "euler"),
+                       ("Poisson", "gillespie"), ("floor-or-unknown", "euler")):
             CASES.append(dispatch_case(_sp, _m, _o))
